@@ -1,21 +1,24 @@
 import RoaringModel.Lemmas.MultiTop
+import RoaringModel.Lemmas.MultiKernelProof
 /-!
 # C09 — multi-operand operations equal the fold of the binary operation (property theorems)
 
 MODEL: `RoaringModel/MultiOps.lean` (multiops.rs line by line).  SPEC: `Spec.multi`, `Spec.multiRes`
 (`RoaringModel/SpecMulti.lean`).
 
-Two groups:
+Two groups, both unconditional:
 
-* **kernel-free** theorems — the `Result` laws that are pure control flow (error in the first item, first
-  error anywhere for `∪`/`⊕`, "error or `∅`" for `∩`/`−`, the empty sequence) hold for the model outright;
-* theorems named `…_partial` — equality with the fold.  They take `(K : Kernel)`
-  (`Lemmas/MultiKernel.lean`): a bundle of *named hypotheses* about code that multiops.rs merely calls —
-  the four `Store` `|=` / `^=` impls, `Store::to_bitmap`, `ensure_correct_store`, "`iter()` of a valid store
-  is ascending `u16`s", `is_empty ⇔ no elements`, and the three whole-bitmap `&=`, `&= &`, `-= &` of ops.rs.
-  Everything multiops.rs itself does — collection thresholds, the sort (any key-sorted permutation), the
-  empty-first shortcut, the early return, `merge_container_owned/ref` with promotion and copy-on-write, the
-  final clean-up — is proved here.  GAP = discharging `Kernel` (store / algebra families).
+* the `Result` laws that are pure control flow (error in the first item, first error anywhere for `∪`/`⊕`,
+  "error or `∅`" for `∩`/`−`, the empty sequence);
+* equality with the fold, for all well-formed operands (`Bitmap.WF`, `Inv.lean`).  Everything multiops.rs
+  itself does — collection thresholds, the sort (any key-sorted permutation), the empty-first shortcut, the
+  early return, `merge_container_owned/ref` with promotion and copy-on-write, the final clean-up — is proved in
+  `Lemmas/Multi*.lean` relative to the record `Multi.Kernel` of facts about code multiops.rs merely calls (the
+  four `Store` `|=` / `^=` impls, `Store::to_bitmap`, `ensure_correct_store`, "`iter()` of a valid store is
+  ascending `u16`s", `is_empty ⇔ no elements`, and the three whole-bitmap `&=`, `&= &`, `-= &` of ops.rs).
+  That record is inhabited by `Multi.kernel` (`Lemmas/MultiKernelProof.lean`): from the core library, the
+  algebra family's store theorems and C02 (`C02_and_ao`, `C02_and_ar`, `C02_sub_ar`; the local copies of the
+  three whole-bitmap operators in `MultiOps.lean` are proved equal to the `Ops.lean` functions).
 -/
 namespace Roaring.C09
 open Roaring Roaring.Multi Roaring.Spec
@@ -85,98 +88,97 @@ theorem C09_empty (op : Op) (h : Hint) :
       tryMultiAndRefWith, andStartWith, tryMultiSubOwned, tryMultiSubRef, tryMultiXorOwned, tryMultiXorRef, hc,
       sortDesc, sortAsc, sortByKey, sortByKeyRev, cleanupOwned, cleanupRef, Bitmap.new]
 
-/-! ## equality with the fold (modulo `Kernel`) -/
-
-section Kernelled
+/-! ## equality with the fold -/
 
 /-- **Union = fold of `∪`**, for `Result` items of owned values: every sequence, every truthful `size_hint`,
     every key-sorted permutation the unstable sort may produce.  (With an error: the first error.) -/
-theorem C09_union_owned_partial (K : Kernel) (sort : List Bitmap → List Bitmap) (hs : IsSortDesc nContainers sort)
+theorem C09_union_owned (sort : List Bitmap → List Bitmap) (hs : IsSortDesc nContainers sort)
     (h : Hint) (xs : List (Except ε Bitmap)) (hh : Hint.Admissible h xs.length)
-    (hwf : ∀ b ∈ okValues xs, WF b) :
+    (hwf : ∀ b ∈ okValues xs, Bitmap.WF b) :
     (tryMultiOrOwnedWith sort h xs).map Bitmap.elems = match firstError xs with
       | some e => .error e
       | none => .ok (Spec.multi .or ((okValues xs).map Bitmap.elems)) := by
-  rw [orOwned_bridge K]
-  exact orWith_spec K (ownedEngine K ε plaw_or K.orOwned sopLaw_or) hs hh hwf
+  rw [orOwned_bridge kernel]
+  exact orWith_spec kernel (ownedEngine kernel ε plaw_or kernel.orOwned sopLaw_or) hs hh (wf_of_all hwf)
 
 /-- … of borrowed values (`merge_container_ref`, copy-on-write). -/
-theorem C09_union_ref_partial (K : Kernel) (sort : List Bitmap → List Bitmap) (hs : IsSortDesc nContainers sort)
+theorem C09_union_ref (sort : List Bitmap → List Bitmap) (hs : IsSortDesc nContainers sort)
     (h : Hint) (xs : List (Except ε Bitmap)) (hh : Hint.Admissible h xs.length)
-    (hwf : ∀ b ∈ okValues xs, WF b) :
+    (hwf : ∀ b ∈ okValues xs, Bitmap.WF b) :
     (tryMultiOrRefWith sort h xs).map Bitmap.elems = match firstError xs with
       | some e => .error e
       | none => .ok (Spec.multi .or ((okValues xs).map Bitmap.elems)) := by
-  rw [orRef_bridge K]
-  exact orWith_spec K (refEngine K ε plaw_or K.orRef sopLaw_or) hs hh hwf
+  rw [orRef_bridge kernel]
+  exact orWith_spec kernel (refEngine kernel ε plaw_or kernel.orRef sopLaw_or) hs hh (wf_of_all hwf)
 
 /-- **Symmetric difference = fold of `⊕`** (owned). -/
-theorem C09_symmetric_difference_owned_partial (K : Kernel) (xs : List (Except ε Bitmap)) (hwf : ∀ b ∈ okValues xs, WF b) :
+theorem C09_symmetric_difference_owned (xs : List (Except ε Bitmap)) (hwf : ∀ b ∈ okValues xs, Bitmap.WF b) :
     (tryMultiXorOwned xs).map Bitmap.elems = match firstError xs with
       | some e => .error e
       | none => .ok (Spec.multi .xor ((okValues xs).map Bitmap.elems)) := by
-  rw [xorOwned_bridge K]
-  exact xorWith_spec (ownedEngine K ε plaw_xor K.xorOwned sopLaw_xor) hwf
+  rw [xorOwned_bridge kernel]
+  exact xorWith_spec (ownedEngine kernel ε plaw_xor kernel.xorOwned sopLaw_xor) (wf_of_all hwf)
 
 /-- … (borrowed). -/
-theorem C09_symmetric_difference_ref_partial (K : Kernel) (xs : List (Except ε Bitmap)) (hwf : ∀ b ∈ okValues xs, WF b) :
+theorem C09_symmetric_difference_ref (xs : List (Except ε Bitmap)) (hwf : ∀ b ∈ okValues xs, Bitmap.WF b) :
     (tryMultiXorRef xs).map Bitmap.elems = match firstError xs with
       | some e => .error e
       | none => .ok (Spec.multi .xor ((okValues xs).map Bitmap.elems)) := by
-  rw [xorRef_bridge K]
-  exact xorWith_spec (refEngine K ε plaw_xor K.xorRef sopLaw_xor) hwf
+  rw [xorRef_bridge kernel]
+  exact xorWith_spec (refEngine kernel ε plaw_xor kernel.xorRef sopLaw_xor) (wf_of_all hwf)
 
 /-- **Intersection = fold of `∩`** on an all-`Ok` sequence, for every key-sorted permutation and truthful
     `size_hint` (owned and borrowed). -/
-theorem C09_intersection_partial (K : Kernel) (sort : List Bitmap → List Bitmap) (hs : IsSortAsc nContainers sort)
+theorem C09_intersection (sort : List Bitmap → List Bitmap) (hs : IsSortAsc nContainers sort)
     (h : Hint) (xs : List (Except ε Bitmap)) (hh : Hint.Admissible h xs.length)
-    (hwf : ∀ b ∈ okValues xs, WF b) (hfe : firstError xs = none) :
+    (hwf : ∀ b ∈ okValues xs, Bitmap.WF b) (hfe : firstError xs = none) :
     (tryMultiAndOwnedWith sort h xs).map Bitmap.elems = .ok (Spec.multi .and ((okValues xs).map Bitmap.elems)) ∧
     (tryMultiAndRefWith sort h xs).map Bitmap.elems = .ok (Spec.multi .and ((okValues xs).map Bitmap.elems)) :=
-  ⟨andWith_ok K (andOwnedLaw K) hs hh hwf hfe, andWith_ok K (andRefLaw K) hs hh hwf hfe⟩
+  ⟨andWith_ok kernel (andOwnedLaw kernel) hs hh (wf_of_all hwf) hfe,
+   andWith_ok kernel (andRefLaw kernel) hs hh (wf_of_all hwf) hfe⟩
 
 /-- **Difference = first minus all others** on an all-`Ok` sequence (owned and borrowed). -/
-theorem C09_difference_partial (K : Kernel) (xs : List (Except ε Bitmap)) (hwf : ∀ b ∈ okValues xs, WF b)
+theorem C09_difference (xs : List (Except ε Bitmap)) (hwf : ∀ b ∈ okValues xs, Bitmap.WF b)
     (hfe : firstError xs = none) :
     (tryMultiSubOwned xs).map Bitmap.elems = .ok (Spec.multi .sub ((okValues xs).map Bitmap.elems)) ∧
     (tryMultiSubRef xs).map Bitmap.elems = .ok (Spec.multi .sub ((okValues xs).map Bitmap.elems)) :=
-  ⟨subWith_ok (subOwnedLaw K) hwf hfe, subWith_ok (subRefLaw K) hwf hfe⟩
+  ⟨subWith_ok (subOwnedLaw kernel) (wf_of_all hwf) hfe, subWith_ok (subRefLaw kernel) (wf_of_all hwf) hfe⟩
 
 /-- **All-`Ok` ↦ `Ok(fold)`** for the executable model (the sorts the driver runs), owned items. -/
-theorem C09_all_ok_owned_partial (K : Kernel) (op : Op) (h : Hint) (xs : List (Except ε Bitmap)) (hh : Hint.Admissible h xs.length)
-    (hwf : ∀ b ∈ okValues xs, WF b) (hfe : firstError xs = none) :
+theorem C09_all_ok_owned (op : Op) (h : Hint) (xs : List (Except ε Bitmap)) (hh : Hint.Admissible h xs.length)
+    (hwf : ∀ b ∈ okValues xs, Bitmap.WF b) (hfe : firstError xs = none) :
     (tryMultiOwned op h xs).map Bitmap.elems = .ok (Spec.multi (specOp op) ((okValues xs).map Bitmap.elems)) := by
   cases op
-  · have := C09_union_owned_partial K sortDesc sortDesc_isSortDesc h xs hh hwf
+  · have := C09_union_owned sortDesc sortDesc_isSortDesc h xs hh hwf
     rw [hfe] at this; exact this
-  · exact (C09_intersection_partial K sortAsc sortAsc_isSortAsc h xs hh hwf hfe).1
-  · exact (C09_difference_partial K xs hwf hfe).1
-  · have := C09_symmetric_difference_owned_partial K xs hwf
+  · exact (C09_intersection sortAsc sortAsc_isSortAsc h xs hh hwf hfe).1
+  · exact (C09_difference xs hwf hfe).1
+  · have := C09_symmetric_difference_owned xs hwf
     rw [hfe] at this; exact this
 
 /-- … borrowed items. -/
-theorem C09_all_ok_ref_partial (K : Kernel) (op : Op) (h : Hint) (xs : List (Except ε Bitmap)) (hh : Hint.Admissible h xs.length)
-    (hwf : ∀ b ∈ okValues xs, WF b) (hfe : firstError xs = none) :
+theorem C09_all_ok_ref (op : Op) (h : Hint) (xs : List (Except ε Bitmap)) (hh : Hint.Admissible h xs.length)
+    (hwf : ∀ b ∈ okValues xs, Bitmap.WF b) (hfe : firstError xs = none) :
     (tryMultiRef op h xs).map Bitmap.elems = .ok (Spec.multi (specOp op) ((okValues xs).map Bitmap.elems)) := by
   cases op
-  · have := C09_union_ref_partial K sortDesc sortDesc_isSortDesc h xs hh hwf
+  · have := C09_union_ref sortDesc sortDesc_isSortDesc h xs hh hwf
     rw [hfe] at this; exact this
-  · exact (C09_intersection_partial K sortAsc sortAsc_isSortAsc h xs hh hwf hfe).2
-  · exact (C09_difference_partial K xs hwf hfe).2
-  · have := C09_symmetric_difference_ref_partial K xs hwf
+  · exact (C09_intersection sortAsc sortAsc_isSortAsc h xs hh hwf hfe).2
+  · exact (C09_difference xs hwf hfe).2
+  · have := C09_symmetric_difference_ref xs hwf
     rw [hfe] at this; exact this
 
 /-- **The whole `Result` law, owned items** (`impl MultiOps<Result<RoaringBitmap, E>> for I`): the outcome,
     seen through `elems`, is one of the outcomes the SPEC admits — `Ok(fold)` when all items are `Ok`; the
     first error for `∪`/`⊕`; for `∩`/`−` the error of the first item, and otherwise the first error or `Ok(∅)`. -/
-theorem C09_result_owned_partial (K : Kernel) (op : Op) (h : Hint) (xs : List (Except ε Bitmap))
-    (hh : Hint.Admissible h xs.length) (hwf : ∀ b ∈ okValues xs, WF b) :
+theorem C09_result_owned (op : Op) (h : Hint) (xs : List (Except ε Bitmap))
+    (hh : Hint.Admissible h xs.length) (hwf : ∀ b ∈ okValues xs, Bitmap.WF b) :
     (tryMultiOwned op h xs).map Bitmap.elems ∈ Spec.multiRes (specOp op) (elemsItems xs) := by
   apply mem_multiRes_of
   · intro hfe
     rw [firstError_elemsItems] at hfe
     rw [okValues_elemsItems]
-    exact C09_all_ok_owned_partial K op h xs hh hwf hfe
+    exact C09_all_ok_owned op h xs hh hwf hfe
   · intro e t hx
     match xs, hx, hh with
     | .error e' :: t', hx, hh =>
@@ -202,14 +204,14 @@ theorem C09_result_owned_partial (K : Kernel) (op : Op) (h : Hint) (xs : List (E
       rw [(C09_first_error_union_xor_owned sortDesc sortDesc_isSortDesc.perm h xs e hh hfe).2]; rfl
 
 /-- **The whole `Result` law, borrowed items** (`impl MultiOps<Result<&RoaringBitmap, E>> for I`). -/
-theorem C09_result_ref_partial (K : Kernel) (op : Op) (h : Hint) (xs : List (Except ε Bitmap))
-    (hh : Hint.Admissible h xs.length) (hwf : ∀ b ∈ okValues xs, WF b) :
+theorem C09_result_ref (op : Op) (h : Hint) (xs : List (Except ε Bitmap))
+    (hh : Hint.Admissible h xs.length) (hwf : ∀ b ∈ okValues xs, Bitmap.WF b) :
     (tryMultiRef op h xs).map Bitmap.elems ∈ Spec.multiRes (specOp op) (elemsItems xs) := by
   apply mem_multiRes_of
   · intro hfe
     rw [firstError_elemsItems] at hfe
     rw [okValues_elemsItems]
-    exact C09_all_ok_ref_partial K op h xs hh hwf hfe
+    exact C09_all_ok_ref op h xs hh hwf hfe
   · intro e t hx
     match xs, hx, hh with
     | .error e' :: t', hx, hh =>
@@ -236,14 +238,14 @@ theorem C09_result_ref_partial (K : Kernel) (op : Op) (h : Hint) (xs : List (Exc
 
 /-- **The plain trait impls** (`impl MultiOps<RoaringBitmap> for I`, `impl MultiOps<&RoaringBitmap> for I`):
     the result *is* the fold — `∪`/`⊕` from `∅`, `∩`/`−` from the first operand, `∅` for the empty sequence. -/
-theorem C09_fold_partial (K : Kernel) (op : Op) (h : Hint) (l : List Bitmap) (hh : Hint.Admissible h l.length)
-    (hwf : ∀ b ∈ l, WF b) :
+theorem C09_fold (op : Op) (h : Hint) (l : List Bitmap) (hh : Hint.Admissible h l.length)
+    (hwf : ∀ b ∈ l, Bitmap.WF b) :
     Bitmap.elems (multiOwned op h l) = Spec.multi (specOp op) (l.map Bitmap.elems) ∧
     Bitmap.elems (multiRef op h l) = Spec.multi (specOp op) (l.map Bitmap.elems) := by
   have hh' : Hint.Admissible h (l.map (Except.ok (ε := Empty))).length := by simpa using hh
-  have hwf' : ∀ b ∈ okValues (l.map (Except.ok (ε := Empty))), WF b := by simpa using hwf
-  have h1 := C09_all_ok_owned_partial K op h (l.map (Except.ok (ε := Empty))) hh' hwf' (firstError_map_ok l)
-  have h2 := C09_all_ok_ref_partial K op h (l.map (Except.ok (ε := Empty))) hh' hwf' (firstError_map_ok l)
+  have hwf' : ∀ b ∈ okValues (l.map (Except.ok (ε := Empty))), Bitmap.WF b := by simpa using hwf
+  have h1 := C09_all_ok_owned op h (l.map (Except.ok (ε := Empty))) hh' hwf' (firstError_map_ok l)
+  have h2 := C09_all_ok_ref op h (l.map (Except.ok (ε := Empty))) hh' hwf' (firstError_map_ok l)
   rw [okValues_map_ok] at h1 h2
   unfold multiOwned multiRef
   constructor
@@ -254,19 +256,18 @@ theorem C09_fold_partial (K : Kernel) (op : Op) (h : Hint) (l : List Bitmap) (hh
     | error e => exact nomatch e
     | ok v => rw [hr] at h2; simpa [unwrapInfallible] using h2
 
-end Kernelled
-
-/-! ## non-vacuity: concrete values meeting the hypotheses (all but `Kernel`, which is the stated gap) -/
+/-! ## non-vacuity: concrete values meeting the hypotheses -/
 
 /-- a two-chunk operand and a one-chunk operand sharing chunk 0 -/
 def exA : Bitmap := [⟨0, .array [1, 2, 3]⟩, ⟨2, .array [7]⟩]
 def exB : Bitmap := [⟨0, .array [3, 4]⟩]
 
-example : WF exA ∧ WF exB := by
+example : Bitmap.WF exA ∧ Bitmap.WF exB := by
   refine ⟨⟨by decide, ?_⟩, ⟨by decide, ?_⟩⟩ <;>
   · intro c hc
     simp only [exA, exB, List.mem_cons, List.not_mem_nil, or_false] at hc
-    rcases hc with rfl | rfl <;> (refine ⟨by decide, ⟨by decide, by decide⟩, by decide⟩)
+    rcases hc with rfl | rfl <;>
+      exact ⟨by decide, ⟨⟨by simp [Sorted], by decide⟩, by decide, by decide⟩⟩
 
 /-- truthful and untruthful-but-positive upper bounds on both sides of 50, `None`, exact -/
 example : Hint.Admissible .exact 60 ∧ Hint.Admissible .none 60 ∧ Hint.Admissible (.upper 51) 60 ∧
